@@ -12,9 +12,14 @@ LEVEL_TEXT = ("Theorems over the reals about the broadphase filters regenerated 
               "conservativeness (geoms with points within the margin are never rejected), closed under any mask; the generated SAP projection kernel writes the interval it should; a hand model "
               "of sap_binary_search/sap_range/work decoding (validated against the real kernels) enumerates every overlapping pair exactly once for every stride. Final theorem "
               "`broadphase_complete_partial` carries the hypothesis `narrow-phase margin <= sum of geom margins+gaps`, which FAILS for explicit <pair margin=...> (machine-checked witness; known finding). "
-              "The real collision() is compared across 3 broadphases x all 16 filter masks on random scenes.")
+              "The real collision() is compared across 3 broadphases x all 16 filter masks on random scenes, including crowded scenes (about 12-40 geoms, 1-3 worlds with different poses) "
+              "in which the sweep has more work packages than the 5*nworld*ngeom threads it is launched with (checked per scene by a NumPy transcription of projection/sort/sap_range), so that "
+              "the sweep kernel's own stride loop iterates, with every kind of early-out inside that loop present: compile-time excluded pairs (static-static, same body, parent-child, "
+              "contype/conaffinity mismatch, <exclude>) and, every third scene, sleeping enabled with asleep/static/awake trees.")
 LEVEL_NOTE = ("C18_partial: `_obb_filter`, the mask dispatch and the SAP kernels are hand models/hypotheses (not yet translated); sort is a contract. Trusted: Lean kernel + Mathlib, translator, "
-              "correspondence of the SAP hand model with the real kernels.")
+              "correspondence of the SAP hand model with the real kernels (the sweep kernel `_sap_broadphase` is not in Gen: its stride loop is covered by the hand-model theorems "
+              "`sap_stride_partition`/`sap_enumerates_exactly_once`; that the REAL loop's early-outs (`continue`) do not abandon a thread's remaining work packages is covered only by the "
+              "crowded-scene comparison against NXN).")
 ASSUMPTIONS = ["NaN-free poses (the property says so)", "plane distance < 1e10 (SAP gives planes radius MJ_MAXVAL; witness in C18Witness)"]
 
 
@@ -29,8 +34,192 @@ def _scene(rng, explicit_pair):
     extra = f'<contact><pair geom1="{sp.geoms[g1]}" geom2="{sp.geoms[g2]}" margin="{rng.choice([0.0, 0.3, 0.6])}"/></contact>'
   return models.wrap(wb, floor=rng.random() < 0.7, extra=extra), extra
 
+_SAP_DIR = np.array([0.5935, 0.7790, 0.1235]) / np.linalg.norm([0.5935, 0.7790, 0.1235])  # the fixed sweep axis of sap_broadphase
+_CROWD_TYPES = ["sphere", "capsule", "box", "sphere", "capsule", "box", "ellipsoid", "cylinder"]
 
-def _run(ctx, ncases, rec):
+
+def _geom_xml(rng, name, spread, offset, filt):
+  t = _CROWD_TYPES[int(rng.integers(len(_CROWD_TYPES)))]
+  r = rng.uniform(0.05, 0.11)
+  size = {"sphere": f"{r:.3f}", "capsule": f"{0.7 * r:.3f} {r:.3f}", "cylinder": f"{0.8 * r:.3f} {0.8 * r:.3f}",
+          "box": f"{r:.3f} {0.7 * r:.3f} {0.8 * r:.3f}", "ellipsoid": f"{r:.3f} {0.7 * r:.3f} {0.8 * r:.3f}"}[t]
+  pos = rng.uniform(-spread, spread, size=3) if offset is None else rng.uniform(-offset, offset, size=3)
+  q = rng.normal(size=4)
+  q /= np.linalg.norm(q)
+  attr = ""
+  if filt:
+    # two filter classes besides the default (1,1): A=(2,4) collides only with B=(4,2); both are excluded against default geoms
+    u = rng.random()
+    if u < 0.07:
+      attr += ' contype="2" conaffinity="4"'
+    elif u < 0.14:
+      attr += ' contype="4" conaffinity="2"'
+  if t != "box" and rng.random() < 0.25:  # put_model rejects box-box pairs with a margin
+    attr += f' margin="{rng.choice([0.01, 0.03])}"'
+  return f'<geom name="{name}" type="{t}" size="{size}" pos="{pos[0]:.3f} {pos[1]:.3f} {pos[2]:.3f}" quat="{q[0]:.4f} {q[1]:.4f} {q[2]:.4f} {q[3]:.4f}"{attr}/>'
+
+
+def _crowded_xml(rng, spread, floor, sleep, nstatic, nbody):
+  """a crowded scene: many geoms in a cube of half-side `spread`, with every kind of compile-time pair exclusion
+  (static-static, same body, parent-child, contype/conaffinity mismatch, <exclude>)"""
+  out = []
+  if floor:
+    out.append(f'<geom name="floor" type="plane" size="5 5 .1" pos="0 0 {-1.2 * spread:.3f}"/>')
+    if rng.random() < 0.3:
+      out.append(f'<geom name="wall" type="plane" size="5 5 .1" pos="{-1.2 * spread:.3f} 0 0" zaxis="1 0 0.2"/>')
+  for i in range(nstatic):
+    out.append(_geom_xml(rng, f"s{i}", spread, None, True))
+  names = []
+  b = 0
+  while b < nbody:
+    chain = int(min(nbody - b, rng.choice([1, 1, 2, 3])))
+    close = ""
+    for c in range(chain):
+      p = rng.uniform(-spread, spread, size=3) if c == 0 else rng.uniform(-0.15, 0.15, size=3)
+      out.append(f'<body name="b{b}" pos="{p[0]:.3f} {p[1]:.3f} {p[2]:.3f}">')
+      if c == 0:
+        out.append("<freejoint/>")
+      else:
+        ax = rng.normal(size=3)
+        out.append(f'<joint type="hinge" axis="{ax[0]:.3f} {ax[1]:.3f} {ax[2]:.3f}"/>')
+      for g in range(int(rng.integers(1, 4))):
+        out.append(_geom_xml(rng, f"b{b}g{g}", spread, 0.1, True))
+      names.append(f"b{b}")
+      close += "</body>"
+      b += 1
+    out.append(close)
+  extra = ""
+  if len(names) >= 2:
+    b1, b2 = rng.choice(len(names), size=2, replace=False)
+    extra = f'<contact><exclude body1="{names[b1]}" body2="{names[b2]}"/></contact>'
+  flag = '<flag sleep="enable"/>' if sleep else ""
+  return f'<mujoco><option gravity="0 0 0">{flag}</option><worldbody>\n' + "\n".join(out) + f"\n</worldbody>{extra}</mujoco>"
+
+
+def _sap_work(mjm, xpos):
+  """NumPy transcription of sap_project / sort / sap_range for one world: number of work packages of the sweep"""
+  rb = mjm.geom_rbound.astype(np.float64).copy()
+  rb[rb == 0.0] = 1e10
+  rad = rb + mjm.geom_margin + mjm.geom_gap
+  cen = xpos @ _SAP_DIR
+  lo, up = cen - rad, cen + rad
+  order = np.argsort(lo, kind="stable")
+  lo_s = lo[order]
+  n = len(lo)
+  tot = 0
+  for s in range(n):
+    limit = s + 1 + int(np.searchsorted(lo_s[s + 1:], up[order[s]], side="right"))
+    tot += min(n - 1, limit) - s
+  return tot
+
+
+def _crowded(rng, k):
+  """crowded scene no. k with per-world poses such that the sweep has MORE work packages than the 5*nworld*ngeom threads
+  the sweep kernel is launched with (its own stride loop runs more than once); features rotate with k"""
+  import mujoco
+  floor = k % 2 == 0
+  sleep = k % 3 == 1
+  nworld = 1 + k % 3
+  nstatic = int(rng.integers(2, 6))
+  nbody = int(rng.integers(8, 13))
+  spread = 0.22
+  for attempt in range(6):
+    xml = _crowded_xml(rng, spread, floor, sleep, nstatic, nbody)
+    mjm = mujoco.MjModel.from_xml_string(xml)
+    mjd = mujoco.MjData(mjm)
+    qpos = np.zeros((nworld, mjm.nq))
+    work = 0
+    for w in range(nworld):
+      q = mjm.qpos0.copy()
+      for j in range(mjm.njnt):
+        a = mjm.jnt_qposadr[j]
+        if mjm.jnt_type[j] == 0:
+          q[a:a + 3] = rng.uniform(-spread, spread, size=3)
+          qq = rng.normal(size=4)
+          q[a + 3:a + 7] = qq / np.linalg.norm(qq)
+        else:
+          q[a] = rng.uniform(-2.0, 2.0)
+      qpos[w] = q
+      mjd.qpos[:] = q
+      mujoco.mj_kinematics(mjm, mjd)
+      work += _sap_work(mjm, mjd.geom_xpos)
+    nsweep = 5 * nworld * mjm.ngeom
+    if work >= 1.6 * nsweep:  # most threads have a second work package (all pairs of n geoms: n(n-1)/2 packages for 5n threads)
+      break
+    spread *= 0.75
+  awake = None
+  if sleep:
+    # per kinematic tree and world: asleep with probability 1/2 (static bodies keep STATIC)
+    awake = np.zeros((nworld, mjm.nbody), dtype=np.int32)
+    for w in range(nworld):
+      tree_asleep = rng.random(max(1, mjm.ntree)) < 0.5
+      perm = rng.permutation(max(1, mjm.ntree))
+      tree_asleep[perm[:2]] = True  # at least one asleep-asleep and one asleep-static combination ...
+      if len(perm) > 2:
+        tree_asleep[perm[2]] = False  # ... and an awake tree
+      for b in range(mjm.nbody):
+        t = mjm.body_treeid[b]
+        awake[w, b] = int(mujoco.mjtSleepState.mjS_STATIC) if t < 0 else int(mujoco.mjtSleepState.mjS_ASLEEP if tree_asleep[t] else mujoco.mjtSleepState.mjS_AWAKE)
+  return {"xml": xml, "mjm": mjm, "mjd": mjd, "qpos": qpos, "nworld": nworld, "work": int(work), "nsweep": int(nsweep), "ngeom": int(mjm.ngeom), "floor": floor, "sleep": sleep,
+          "awake": awake, "attempts": attempt + 1, "spread": spread}
+
+
+def _crowded_case(acc, ctx, rng, k):
+  """collision() of one crowded scene under every broadphase x mask; the reference is NXN with mask 0 (no culling at all)"""
+  import mujoco
+  import warp as wp
+  import mujoco_warp as mjw
+  sc = _crowded(rng, k)
+  mjm, nworld = sc["mjm"], sc["nworld"]
+  npair = mjm.ngeom * (mjm.ngeom - 1) // 2
+  m = mjw.put_model(mjm)
+  d = mjw.put_data(mjm, sc["mjd"], nworld=nworld, naconmax=nworld * (npair + 300))
+  d.qpos = wp.array(sc["qpos"].astype(np.float32), dtype=float)
+  mjw.kinematics(m, d)  # all bodies awake here
+  if sc["sleep"]:
+    d.body_awake = wp.array(sc["awake"], dtype=int)
+  excluded = int(np.sum((m.nxn_pairid.numpy()[:, 0] < -1) & (m.nxn_pairid.numpy()[:, 1] < 0)))
+  # quick tier: only masks whose kernels the ordinary cases have built already (every new mask/sleep variant costs ~3 s of Warp codegen per process)
+  masks = list(range(16)) if ctx.thorough else ([0, 15] if sc["sleep"] else [0, 11, 15])
+  res = {}
+  for bp in (0, 1, 2):
+    for mask in masks:
+      m.opt.broadphase = mjw.BroadphaseType(bp)
+      m.opt.broadphase_filter = mask
+      mjw.collision(m, d)
+      acc.evals += 1
+      if int(d.nacon.numpy()[0]) > d.naconmax or int(d.ncollision.numpy()[0]) > d.naconmax:
+        acc.hit("crowded:overflow-skipped")
+        return
+      res[(bp, mask)] = [world_contacts(d, w) for w in range(nworld)]
+  ref = res[(0, 0)]
+  if any(ref):
+    acc.distinct.add(("crowded", k))
+  acc.hit("crowded")
+  acc.hit("crowded:sap-stride>1" if sc["work"] > sc["nsweep"] else "crowded:sap-single-pass")
+  nasleep = int(np.sum(sc["awake"] == int(mujoco.mjtSleepState.mjS_ASLEEP))) if sc["sleep"] else 0
+  for key, on in (("floor", sc["floor"]), ("sleep", sc["sleep"]), ("sleep:asleep-bodies", nasleep >= 2), ("multiworld", nworld > 1), ("excluded-pairs", excluded > 0),
+                  ("contacts", any(ref))):
+    if on:
+      acc.hit("crowded:" + key)
+  replay = dict(xml=sc["xml"], qpos=sc["qpos"].tolist(), nworld=nworld, body_awake=sc["awake"].tolist() if sc["sleep"] else None)
+  for (bp, mask), cons in res.items():
+    if cons == ref:
+      continue
+    nref, ncon = [len(x) for x in ref], [len(x) for x in cons]
+    if bp != 0 and res[(0, mask)] == ref:
+      # NXN with the same mask agrees with the reference: the sweep lost or invented candidate pairs
+      acc.find(f"crowded scene ({sc['ngeom']} geoms, {sc['work']} sweep work packages for {sc['nsweep']} threads, {excluded} compile-time excluded pairs, sleep={sc['sleep']}): "
+               f"{mjw.BroadphaseType(bp).name}/mask {mask} gives {ncon} contacts per world, NXN/mask {mask} and NXN/mask 0 give {nref}",
+               "collision_driver.sap_broadphase", "sap-differs-from-nxn", broadphase=bp, mask=mask, **replay)
+    else:
+      acc.find(f"crowded scene ({sc['ngeom']} geoms, sleep={sc['sleep']}): broadphase {bp}/mask {mask} gives {ncon} contacts per world, NXN/mask 0 gives {nref}",
+               "collision_driver", "broadphase-mismatch", broadphase=bp, mask=mask, **replay)
+  acc.sample({"crowded": k, "ngeom": sc["ngeom"], "nworld": nworld, "sap_work": sc["work"], "sap_threads": sc["nsweep"], "excluded_pairs": excluded, "sleep": sc["sleep"],
+              "ncon_ref": [len(x) for x in ref]}, limit=5)
+
+
+def _run(ctx, ncases, rec, ncrowd=0):
   import mujoco
   import mujoco_warp as mjw
   from harness.gen import models
@@ -51,9 +240,16 @@ def _run(ctx, ncases, rec):
       nworld = int(rng.integers(1, 3))
       ref = None
       masks = list(range(16)) if ctx.thorough else sorted(set([0, 11, 15] + [int(x) for x in rng.integers(0, 16, size=3)]))
+      rejected = False
       for bp in (0, 1, 2):
+        if rejected:
+          break
         for mask in masks:
-          m = mjw.put_model(mjm)
+          try:
+            m = mjw.put_model(mjm)
+          except NotImplementedError:  # e.g. box-box <pair> with a margin under MULTICCD/NATIVECCD
+            rejected = True
+            break
           m.opt.broadphase = mjw.BroadphaseType(bp) if hasattr(mjw, "BroadphaseType") else bp
           m.opt.broadphase_filter = mask
           d = mjw.put_data(mjm, mjd, nworld=nworld, naconmax=400 * nworld)
@@ -70,8 +266,14 @@ def _run(ctx, ncases, rec):
             trig = "pair-margin" if extra and "margin=\"0.0\"" not in extra else "broadphase-mismatch"
             acc.find(f"contacts differ between broadphase {ref[0]}/mask {ref[1]} ({[len(x) for x in ref[2]]}) and broadphase {bp}/mask {mask} ({[len(x) for x in cons]})",
                      "collision_driver._broadphase_filter" if trig == "pair-margin" else "collision_driver", trig, xml=xml, broadphase=bp, mask=mask, qpos=mjd.qpos.tolist(), ref=[ref[0], ref[1]])
+      if rejected:
+        acc.hit("put_model-rejected")
+        continue
       acc.hit("explicit-pair" if extra else "no-pair")
       acc.sample({"ngeom": int(mjm.ngeom), "explicit_pair": bool(extra), "ncon_ref": [len(x) for x in ref[2]] if ref else None})
+    # crowded scenes: feature rotation (floor: k%2, sleep: k%3==1, nworld: 1+k%3) continues across seeds
+    for i in range(ncrowd):
+      _crowded_case(acc, ctx, rng, ctx.seed * ncrowd + i)
 
   if rec:
     kc, _ = intercept(KERNELS, scenario, rng, max_tids=16, per_kernel=3)
@@ -83,16 +285,21 @@ def _run(ctx, ncases, rec):
 
 RULE = ("random forests of 2-5 free/hinged bodies with sphere/capsule/box/ellipsoid/cylinder geoms close together, optional floor, 30% with an explicit <pair> whose margin is 0/0.3/0.6; "
         "1-2 worlds; per scene the sorted per-world contact lists are compared across broadphase in {NXN,SAP_TILE,SAP_SEGMENTED} x filter masks (all 16 in thorough, 3 fixed + 3 random in quick); "
-        "distinct = scenes with at least one contact")
+        "distinct = scenes with at least one contact. PLUS crowded scenes (3 quick / 6 thorough / 12 search; index k = seed*n+i): 2-5 static geoms + 8-12 bodies (free roots with hinge chains of 1-3, 1-3 geoms "
+        "each, 14% of geoms in contype/conaffinity classes (2,4)/(4,2), 25% of non-box geoms with margin 0.01/0.03, one <exclude>) in a cube of half-side 0.22 (shrunk by 0.75, up to 5 times, until the "
+        "NumPy-transcribed number of sweep work packages is >= 1.6 x the 5*nworld*ngeom threads; hit 'crowded:sap-stride>1' iff it exceeds the thread count), floor (+30% tilted wall) iff k even, "
+        "nworld = 1+k%3 with independent random poses per world, sleep flag with >=2 asleep and >=1 awake tree per world iff k%3==1 (d.body_awake written directly after kinematics); one Model/Data "
+        "reused for broadphase x masks ({0,11,15} quick, {0,15} quick+sleep, all 16 thorough), reference NXN/mask 0; a SAP result that differs while NXN with the same mask agrees is reported at site "
+        "collision_driver.sap_broadphase; scenes whose pair/contact buffers overflow are skipped (hit)")
 
 
 def correspondence(ctx):
   from harness.corr import func_corr
   fc = func_corr.run(["collision_driver._plane_filter", "collision_driver._sphere_filter", "collision_driver._aabb_filter"], ncases=192 if ctx.thorough else 64, seed=ctx.seed)
-  acc, kc = _run(ctx, 20 if ctx.thorough else 6, True)
+  acc, kc = _run(ctx, 20 if ctx.thorough else 6, True, ncrowd=6 if ctx.thorough else 3)
   return result(acc, RULE, kc=kc, fc=fc)
 
 
 def search(ctx, breaks):
-  acc, _ = _run(ctx, 40, False)
+  acc, _ = _run(ctx, 40, False, ncrowd=12)
   return search_result(acc, "the other broadphases / filter masks")
